@@ -1312,3 +1312,246 @@ func genAuth(r *rand.Rand, id string) *Case {
 }
 
 func init() { generators["auth"] = genAuth }
+
+func kvHex(m map[string]string) string {
+	keys := make([]string, 0, len(m))
+	for k := range m {
+		keys = append(keys, k)
+	}
+	sort.Strings(keys)
+	parts := make([]string, len(keys))
+	for i, k := range keys {
+		parts[i] = hxs(k) + "=" + hxs(m[k])
+	}
+	return strings.Join(parts, ",")
+}
+
+// genStartup (C12): startup packets (duplicate keys, empty values, missing terminator, odd
+// versions), SSLRequest answered 'N', CancelRequest at every stage, configured global
+// parameters and version. xcp / xsp = the client / server parameters a handler must see,
+// xs = the ParameterStatus set on the wire.
+func genStartup(r *rand.Rand, id string) *Case {
+	c := baseCase(id, "startup")
+	c.CX = true
+	c.TLS = r.Intn(2)
+	if r.Intn(3) == 0 {
+		c.Ver = []byte(pick(r, []string{"15.3", "verif 1"}))
+	}
+	cfgMap := map[string]string{}
+	if r.Intn(2) == 0 {
+		c.GPNil = false
+		for _, k := range []string{"application_name", "server_encoding", "client_encoding", "TimeZone", "is_superuser", "session_authorization", "server_version"} {
+			if r.Intn(3) == 0 {
+				v := pick(r, []string{"x", "", "LATIN1", "on", "UTC"})
+				cfgMap[k] = v
+				c.GP = append(c.GP, [2][]byte{[]byte(k), []byte(v)})
+			}
+		}
+	}
+	var in []byte
+	ssl := r.Intn(4) == 0
+	if ssl {
+		in = append(in, startup(80877103, nil, false)...)
+	}
+	// cancel at a negotiation stage
+	if r.Intn(8) == 0 {
+		in = append(in, append(be32(16), append(be32(80877102), randBytes(r, 8, false)...)...)...)
+		in = append(in, msgQuery(probeQuery("AFTERCANCEL", 0))...)
+		c.In = in
+		c.Cuts = randCuts(r, len(in))
+		c.Extra["xpre"] = ""
+		c.Extra["xend"] = "c"
+		c.Extra["xnoev"] = "1"
+		return c
+	}
+	keys := []string{"user", "database", "application_name", "client_encoding", "x", "options"}
+	n := r.Intn(7)
+	var kv [][2]string
+	client := map[string]string{}
+	for i := 0; i < n; i++ {
+		k := keys[r.Intn(len(keys))]
+		v := pick(r, []string{"alice", "bob", "", "db1", "UTF8", "a b", "é"})
+		kv = append(kv, [2]string{k, v})
+		client[k] = v
+	}
+	version := uint32(196608)
+	if r.Intn(8) == 0 {
+		version = []uint32{80877104, 131072, 196609, 0x12345678}[r.Intn(4)]
+	}
+	term := r.Intn(12) != 0
+	in = append(in, startup(version, kv, term)...)
+	if !term && n > 0 {
+		// no terminator: the connection ends, nothing reaches a callback
+		in = append(in, msgQuery(probeQuery("NOTERM", 0))...)
+		c.In = in
+		c.Cuts = randCuts(r, len(in))
+		c.Extra["xpre"] = ""
+		c.Extra["xend"] = "c"
+		c.Extra["xnoev"] = "1"
+		return c
+	}
+	if !term && n == 0 {
+		// body is just the version: GetString finds no NUL -> the connection ends as well
+		in = append(in, msgQuery(probeQuery("NOTERM", 0))...)
+		c.In = in
+		c.Extra["xpre"] = ""
+		c.Extra["xend"] = "c"
+		c.Extra["xnoev"] = "1"
+		return c
+	}
+	in = append(in, msgQuery(probeQuery("PROBE", 0))...)
+	c.In = in
+	c.Cuts = randCuts(r, len(in))
+	server := map[string]string{}
+	for k, v := range cfgMap {
+		server[k] = v
+	}
+	server["server_encoding"] = "UTF8"
+	server["client_encoding"] = "UTF8"
+	if len(c.Ver) > 0 {
+		server["server_version"] = string(c.Ver)
+	}
+	server["is_superuser"] = "off"
+	server["session_authorization"] = client["user"]
+	c.Extra["xcp"] = "=" + kvHex(client)
+	c.Extra["xsp"] = "=" + kvHex(server)
+	c.Extra["xp"] = xpC("PROBE") + ",Z"
+	c.Extra["xend"] = "w"
+	return c
+}
+
+// genLifecycle (C19): 0..6 session middlewares succeeding or failing at any position, with and
+// without a terminate hook, command histories with probes and Terminate.
+func genLifecycle(r *rand.Rand, id string) *Case {
+	c := baseCase(id, "lifecycle")
+	c.CX = true
+	n := r.Intn(7)
+	mw := make([]byte, n)
+	fail := -1
+	for i := range mw {
+		mw[i] = 'o'
+		if fail < 0 && r.Intn(6) == 0 {
+			mw[i] = 'f'
+			fail = i
+		}
+	}
+	c.MW = string(mw)
+	c.Term = r.Intn(3)
+	in := plainStartup("u")
+	var xp []string
+	nq := r.Intn(4)
+	for i := 0; i < nq; i++ {
+		tag := "L" + strconv.Itoa(i)
+		in = append(in, msgQuery(probeQuery(tag, 0))...)
+		xp = append(xp, xpC(tag), "Z")
+	}
+	terminated := r.Intn(2) == 0
+	failedBatch := terminated && r.Intn(3) == 0
+	if failedBatch {
+		// an extended-query message fails and the client gives up without Sync: Terminate must
+		// still be honoured while the rest of the batch is being discarded
+		in = append(in, msgParse("", "!C"+hxs("42601")+".B"+hxs("x"), nil)...)
+		in = append(in, msgBind("", "", nil, nil, nil)...)
+		xp = append(xp, "E42601:ERROR")
+		nq++
+	}
+	if terminated {
+		in = append(in, msgTerminate()...)
+		in = append(in, msgQuery(probeQuery("AFTERX", 0))...)
+	}
+	c.In = in
+	if r.Intn(2) == 0 {
+		c.Cuts = randCuts(r, len(in))
+	}
+	marks := make([]string, 0, n)
+	for i := 0; i < n; i++ {
+		marks = append(marks, strconv.Itoa(i))
+	}
+	var xm []string
+	if fail >= 0 {
+		for i := 0; i <= fail; i++ {
+			xm = append(xm, "M"+strconv.Itoa(i))
+		}
+		c.Extra["xnoZ"] = "1" // no ReadyForQuery at all, no command served
+		c.Extra["xend"] = "c"
+		c.Extra["xmw"] = "=" + strings.Join(xm, ";") // these and nothing else
+		c.Extra["xonlymw"] = "1"
+		return c
+	}
+	for i := 0; i < n; i++ {
+		xm = append(xm, "M"+strconv.Itoa(i))
+	}
+	c.Extra["xmw"] = "=" + strings.Join(xm, ";")
+	c.Extra["xmarks"] = "=" + strings.Join(marks, ".")
+	c.Extra["xp"] = strings.Join(xp, ",")
+	c.Extra["xncb"] = strconv.Itoa(nq) // parser calls (= statement calls) expected
+	if terminated {
+		c.Extra["xend"] = "c"
+		if c.Term > 0 {
+			c.Extra["xterm"] = "1"
+		} else {
+			c.Extra["xterm"] = "0"
+		}
+	} else {
+		c.Extra["xend"] = "w"
+		c.Extra["xterm"] = "0"
+	}
+	return c
+}
+
+func init() {
+	generators["startup"] = genStartup
+	generators["lifecycle"] = genLifecycle
+}
+
+// genMulti (C12 / C15 / C07): 2..4 connections with different users served by ONE server, using
+// the same statement and portal names; either phased (every connection starts, then every
+// connection continues) or fully concurrent with random pacing. Each connection's transcript
+// and callback trace must equal what the same traffic produces when served alone.
+func genMulti(r *rand.Rand, id string) *Case {
+	c := baseCase(id, "multi")
+	c.CX = true
+	k := 2 + r.Intn(3)
+	c.Extra["conns"] = strconv.Itoa(k)
+	if r.Intn(2) == 0 {
+		c.Extra["sched"] = "par"
+	} else {
+		c.Extra["sched"] = "seq"
+	}
+	if r.Intn(2) == 0 {
+		c.GPNil = false
+		c.GP = append(c.GP, [2][]byte{[]byte("application_name"), []byte("shared")})
+		if r.Intn(2) == 0 {
+			c.GP = append(c.GP, [2][]byte{[]byte("session_authorization"), []byte("nobody")})
+		}
+	}
+	if r.Intn(3) == 0 {
+		c.MW = "oo"
+	}
+	users := []string{"alice", "bob", "carol", "dave"}
+	var ins, pcs []string
+	for i := 0; i < k; i++ {
+		in := startup(196608, [][2]string{{"user", users[i]}, {"database", "db" + strconv.Itoa(i)}}, true)
+		in = append(in, msgQuery(probeQuery("first"+strconv.Itoa(i), 0))...)
+		pc := len(in)
+		// same names on every connection, different definitions
+		q := "t,i/25/r:t" + hxs(users[i]) + ",i" + strconv.Itoa(i) + ";s:25,0;c:" + hxs("ROW") + "/ok"
+		name := pick(r, namePool)
+		in = append(in, msgParse(name, q, nil)...)
+		in = append(in, msgBind(name, name, nil, []bindParam{{v: []byte("p-" + users[i])}}, nil)...)
+		in = append(in, msgDescribe('P', name)...)
+		in = append(in, msgExecute(name, 0)...)
+		if r.Intn(3) == 0 {
+			in = append(in, msgClose('S', name)...)
+		}
+		in = append(in, msgSync()...)
+		in = append(in, msgQuery(probeQuery("last"+strconv.Itoa(i), 0))...)
+		ins = append(ins, hex.EncodeToString(in))
+		pcs = append(pcs, strconv.Itoa(pc))
+	}
+	c.Extra["min"] = strings.Join(ins, "/")
+	c.Extra["pc"] = strings.Join(pcs, "/")
+	return c
+}
+
+func init() { generators["multi"] = genMulti }
